@@ -70,6 +70,8 @@ type Config struct {
 	ParamInit map[int]*Term
 	// InitFacts may preload facts (assumptions about ParamInit terms).
 	InitFacts func(e *Engine, f *Facts)
+	// DropReturnStates: do not retain the final state of every return (the monitors saw it); saves memory on big explorations.
+	DropReturnStates bool
 	// KeepFacts disables the pruning of facts about dead values (needed when
 	// the facts at the returns are the result, as in summary extraction).
 	KeepFacts bool
@@ -427,6 +429,18 @@ func IVLoop(name string) (string, bool) {
 		return "", false
 	}
 	return rest[:i], true
+}
+
+// Bound is the exported view of an integer interval.
+type Bound struct {
+	Lo, Hi       int64
+	HasLo, HasHi bool
+}
+
+// Bounds returns the interval the facts of st imply for an integer term.
+func (e *Engine) Bounds(st *State, t *Term) Bound {
+	b := e.bounds(st.facts, t)
+	return Bound{Lo: b.lo, Hi: b.hi, HasLo: b.hasLo, HasHi: b.hasHi}
 }
 
 // MonByName returns the state of the named monitor in this state.
